@@ -15,6 +15,21 @@ CHECKS = {
         technique='CrossHair (z3) symbolic execution of the generated code vs. the original function, per enumerated program; counterexamples replayed natively',
         text='For every enumerated program (bounded-exhaustive control-flow skeletons + seeded random tail) and option set, z3 decides obs(f,args)==obs(to_graph(f),args) for all int x, bool b, int lists of length<=2 and loop bound n<=3. Per-program verdicts are complete within those bounds; programs themselves are enumerated, not solved.',
         note='Trusted: CPython as reference semantics, CrossHair 0.0.110 modelling of int/bool/list, the tracer/environment classes of vf.rt. Bounds: n<=3, len(xs)<=2, program depth<=2 (quick) / 3 (thorough). Inconclusive obligations (time-outs) are counted, not claimed.'),
+    'C02': dict(
+        level='translation_validation', engine='xh-diff', design='DESIGN.md §2 C02',
+        technique='CrossHair (z3) symbolic execution of the generated code driven by a functional (tracing-style) operator backend injected via get_extra_locals, vs. the original function',
+        text='For every enumerated side-effect-free total program, z3 decides that the converted function run with operators that only use get_state/set_state (both branches executed, loop body traced once out of band, non-outputs restored) returns what CPython returns, for all inputs within n<=3, len(xs)<=2. A state variable missing from a state tuple, or a wrong nouts, changes the result for some input, which z3 finds.',
+        note='Trusted: the functional backend in vf/backends.py as the model of a tracing backend; generator restriction to pure/total programs; CrossHair modelling. Programs are enumerated, not solved.'),
+    'C03': dict(
+        level='translation_validation', engine='xh-diff', design='DESIGN.md §2 C03',
+        technique='CrossHair (z3) symbolic execution of the generated code with contract-asserting operator wrappers evaluated against the live caller frame at every dynamic operator invocation',
+        text='On every path z3 can reach within the bounds, every dynamic if_stmt/while_stmt/for_stmt/and_/or_/if_exp invocation is checked against the documented calling contract (lengths, position-by-position denotation via sentinels evaluated by name in the enclosing frame, read idempotence, write-back neutrality, callback arities, nouts bounds, iterate_names and exactly the user-placed loop directives).',
+        note='Trusted: transcription of operators.md contract in vf/backends.py:_contract; loops identified by a tracer call opening each loop body; sys._getframe(1) is the emitting function.'),
+    'C04': dict(
+        level='translation_validation', engine='xh-diff', design='DESIGN.md §2 C04',
+        technique='CrossHair (z3) symbolic execution of the generated code on opaque (non-truth-testable) wrapped inputs with an unwrapping operator backend; z3 searches for an input reaching a surviving native construct',
+        text='Inputs are wrapped in T (bool(T) raises); only overloadable operators unwrap. For every enumerated program and all inputs within the bounds, the converted function never truth-tests a traced value natively, never enters a user callee outside a converted_call dispatch, and returns the original result.',
+        note='Trusted: T wrapper semantics; a surviving native construct is only observable if its test depends on x, b or list elements (generated conditions do); the loop bound n stays a plain int (CrossHair range model).'),
 }
 
 NOT_APPLICABLE = {
